@@ -72,7 +72,14 @@ func (cs *clientState[T]) run() (err error) {
 		close(chClientStopped)
 	}()
 
-	<-cs.chStop
+	select {
+	case <-cs.chStop:
+	case <-chClientStopped:
+		// client exited by itself (typically an error in Run), return so
+		// the manager drops this state and starts a new client on its rescan
+		return nil
+	}
+
 	cs.client.Stop(nil)
 
 	select {
